@@ -323,9 +323,9 @@ void run_K(const Grid & g)
         atomic_max(g_curv, e_curv);
       }
       // calibrated (thorough grid, cases without a zero-duration segment; witnesses in the evidence notes):
-      // speed (scaled) worst 6.7e-16, curvature excess worst 8.9e-16 -> max(100 x worst, 64 eps) = 8.9e-14 -> 1e-13
-      c.judge("unit speed at evaluation times", e_speed, 1e-13);
-      c.judge("|curvature|<=1/R at evaluation times", e_curv, 1e-13);
+      // speed (scaled) worst 7.2e-16, curvature excess worst 1.1e-15 -> max(100 x worst, 64 eps) = 1.1e-13 -> 2e-13
+      c.judge("unit speed at evaluation times", e_speed, 2e-13);
+      c.judge("|curvature|<=1/R at evaluation times", e_curv, 2e-13);
     } else {
       c.outcome("zero-length path");
     }
